@@ -60,18 +60,32 @@ Definition ev_save_pcfg : string :=
   "save:pcfg(base_directory,pcfg_parser,program_info['encoding'],program_info['save_sensitive'])".
 Definition ev_save_config : string := "save:config(base_directory,program_info,file_input,pcfg_parser)".
 
-(* - num_valid_passwords is file_input.num_passwords, read after a pass over the training file and
-     before the file is opened again;
-   - one parser object, one pass that feeds it, then the Markov block, then save_pcfg_data with
-     the parser, the ruleset encoding and the save_sensitive option;
+(* - num_valid_passwords is bound once, to file_input.num_passwords, after a pass over the training
+     file and before the file is opened again;
+   - pcfg_parser is bound once, to a new PCFGPasswordParser; one pass feeds it, then the Markov block,
+     then save_pcfg_data with the parser, the ruleset encoding and the save_sensitive option;
    - config.ini is written from the same parser object *)
+(* events that start with the prefix p *)
+Fixpoint count_pre (p : string) (l : list string) : nat :=
+  match l with
+  | [] => 0%nat
+  | x :: r => if String.prefix p x then S (count_pre p r) else count_pre p r
+  end.
+Fixpoint index_pre (p : string) (l : list string) : nat :=
+  match l with
+  | [] => 0%nat
+  | x :: r => if String.prefix p x then 0%nat else S (index_pre p r)
+  end.
+
 Definition events_ok (l : list string) : bool :=
   let once e := Nat.eqb (count_ev e l) 1 in
   let before a b := Nat.ltb (index_ev a l) (index_ev b l) in
-  once ev_count && once "new-parser"%string && once "pass:pcfg"%string && once "markov"%string &&
-  once ev_save_pcfg && once ev_save_config &&
-  before "new-parser"%string "pass:pcfg"%string && before "pass:pcfg"%string "markov"%string &&
-  before "markov"%string ev_save_pcfg && before "new-parser"%string ev_save_config &&
+  let parser := index_pre "parser:=PCFGPasswordParser(" l in
+  once ev_count && Nat.eqb (count_pre "count:=" l) 1 &&
+  Nat.eqb (count_pre "parser:=PCFGPasswordParser(" l) 1 && Nat.eqb (count_pre "parser:=" l) 1 &&
+  once "pass:pcfg"%string && once "markov"%string && once ev_save_pcfg && once ev_save_config &&
+  Nat.ltb parser (index_ev "pass:pcfg" l) && before "pass:pcfg"%string "markov"%string &&
+  before "markov"%string ev_save_pcfg && Nat.ltb parser (index_ev ev_save_config l) &&
   match first_of_two "input" "loop:file_input" (rev (firstn (index_ev ev_count l) l)) with
   | Some s => String.eqb s "loop:file_input"
   | None => false
